@@ -239,9 +239,14 @@ fn int_values() -> Vec<RValue> {
     // (lo, hi) width class
     for (lo, hi) in [(1usize, 1usize), (2, 2), (3, 4), (5, 8)] {
         for &w in &[lo, hi] {
-            for &lead in &leads {
+            for &(lead, distinct) in leads.iter().map(|l| (l, false)).chain([(&0x01u8, true), (&0x80u8, true)]).collect::<Vec<_>>().iter() {
+                let lead = *lead;
                 let mut b = vec![lead];
-                b.extend(std::iter::repeat(0xa5).take(w - 1));
+                if distinct {
+                    b.extend([0x23u8, 0x45, 0x67, 0x89, 0xab, 0xcd, 0xef].iter().take(w - 1));
+                } else {
+                    b.extend(std::iter::repeat(0xa5).take(w - 1));
+                }
                 let mut u: u64 = 0;
                 for &x in &b {
                     u = (u << 8) | x as u64;
@@ -437,6 +442,55 @@ fn gen_family(files: &[RFile], budget: usize, acc_proto: &Acc, name: &'static st
     for p in parts {
         acc.merge(p);
     }
+    acc
+}
+
+
+/// Non-periodic byte pattern (a misplaced or shortened copy does not reproduce it).
+fn pattern(len: usize, salt: u32) -> Vec<u8> {
+    (0..len as u32).map(|k| ((k.wrapping_add(salt).wrapping_mul(0x9E37_79B1) ^ (k >> 5).wrapping_mul(0x85EB_CA6B)) >> 24) as u8).collect()
+}
+/// Every byte-string field of every message type, one at a time, with every length 0..=300 and
+/// lengths around 2^12 and 2^16 (data present); all other fields at small defaults.
+fn octet_field_files(lengths: &[usize]) -> Vec<RFile> {
+    let mut v: Vec<RFile> = vec![];
+    let base_entry = REntry { obj_name: vec![1, 0, 1, 8, 0, 0xff], status: None, val_time: None, unit: Some(30), scaler: Some(-1), value: RValue::U8(7), sig: None };
+    for &l in lengths {
+        let d = |salt: u32| pattern(l, salt);
+        let od = |salt: u32| Some(pattern(l, salt));
+        // transaction id (all three message kinds share the envelope)
+        v.push(vec![RMsg { tid: d(1), ..close_msg() }]);
+        // open response: codepage, client_id, req_file_id, server_id
+        let open = |codepage, client_id, req_file_id, server_id| RMsg { tid: vec![1, 2, 3, 4], group: 0, abort: 0, body: RBody::Open { codepage, client_id, req_file_id, server_id, ref_time: None, sml_version: None } };
+        v.push(vec![open(od(2), None, vec![0x11], vec![9])]);
+        v.push(vec![open(None, od(3), vec![0x11], vec![9])]);
+        v.push(vec![open(None, None, d(4), vec![9])]);
+        v.push(vec![open(None, None, vec![0x11], d(5))]);
+        // close response: global signature
+        v.push(vec![RMsg { body: RBody::Close { sig: od(6) }, ..close_msg() }]);
+        // get-list response: client_id, server_id, list_name, list signature
+        let gl = |client_id, server_id, list_name, list_sig, vals| RMsg { tid: vec![0x0a], group: 0, abort: 0, body: RBody::GetList { client_id, server_id, list_name, act_sensor_time: None, vals, list_sig, act_gateway_time: None } };
+        v.push(vec![gl(od(7), vec![9], None, None, vec![base_entry.clone()])]);
+        v.push(vec![gl(None, d(8), None, None, vec![base_entry.clone()])]);
+        v.push(vec![gl(None, vec![9], od(9), None, vec![base_entry.clone()])]);
+        v.push(vec![gl(None, vec![9], None, od(10), vec![base_entry.clone()])]);
+        // list entry: object name, value, value signature
+        v.push(vec![gl(None, vec![9], None, None, vec![REntry { obj_name: d(11), ..base_entry.clone() }])]);
+        v.push(vec![gl(None, vec![9], None, None, vec![REntry { value: RValue::Bytes(d(12)), ..base_entry.clone() }])]);
+        v.push(vec![gl(None, vec![9], None, None, vec![base_entry.clone(), REntry { sig: od(13), ..base_entry.clone() }])]);
+    }
+    v
+}
+fn octet_field_sweep(proto: &Acc, tier: Tier) -> Acc {
+    let mut lengths: Vec<usize> = (0..=300).collect();
+    lengths.extend_from_slice(&[4093, 4094, 4095, 4096, 4097, 65533, 65534, 65535, 65536, 65537, 100_000]);
+    if tier == Tier::Thorough {
+        lengths.extend(301..=1100);
+        lengths.extend_from_slice(&[1 << 20, (1 << 20) + 1, (1 << 24) - 5, 1 << 24]);
+    }
+    let files = octet_field_files(&lengths);
+    let mut acc = gen_family(&files, 1, proto, "generated: every byte-string field x every length 0..=300 and lengths around 2^12, 2^16 (data present)");
+    acc.counts.addn("byte-string field x length files", files.len() as u64);
     acc
 }
 
@@ -1154,9 +1208,15 @@ fn c12_primitives(proto: &Acc, tier: Tier) -> Acc {
     // widths 1..9 x leading byte x fill at every integer site of an entry / message
     for w in 1..=9usize {
         for lead in [0x00u8, 0x01, 0x7f, 0x80, 0xfe, 0xff] {
-            for fill in [0x00u8, 0xff, 0xa5] {
+            // fill 0x23 stands for the distinct bytes 23 45 67 89 ab cd ef 12 (a permutation of the
+            // inner bytes changes the value)
+            for fill in [0x00u8, 0xff, 0xa5, 0x23] {
                 let mut b = vec![lead];
-                b.extend(std::iter::repeat(fill).take(w - 1));
+                if fill == 0x23 {
+                    b.extend([0x23u8, 0x45, 0x67, 0x89, 0xab, 0xcd, 0xef, 0x12].iter().take(w - 1));
+                } else {
+                    b.extend(std::iter::repeat(fill).take(w - 1));
+                }
                 for ty in [0x50u8, 0x60] {
                     if w + 1 > 15 {
                         continue;
@@ -1401,7 +1461,14 @@ pub fn run(prop: &'static str, tier: Tier) -> ! {
             fam("message product x encodings", gen_family(&msgs, 2, &proto, "generated: message-level product x valid encodings"), &mut all);
             let few: Vec<RFile> = seeds_as_files();
             fam("seed files x 3 deviations", gen_family(&few, tier.pick(3, 4), &proto, "generated: seed files x up to 3-4 non-default choices"), &mut all);
-            all.counts.require(&["encodings with non-default choices", "inputs the allocating parser accepts"]);
+            fam("byte-string fields x lengths", octet_field_sweep(&proto, tier), &mut all);
+            // the derived families produce over a million well-formed files of unusual shape (the
+            // reference reader accepts them): a parser rejecting one of them is a C03 matter
+            fam("mutations", mutation_family(&seed_set, Tier::Thorough, &proto, tier == Tier::Thorough), &mut all);
+            fam("splices", splice_family(&small_seeds, tier.pick(150, 2000), &proto), &mut all);
+            fam("tlf replacements", tlf_replacement_family(&seed_set, &proto), &mut all);
+            fam("checksum field variants", crc_field_family(&seed_set, &proto), &mut all);
+            all.counts.require(&["encodings with non-default choices", "inputs the allocating parser accepts", "byte-string field x length files"]);
         }
         "C04" => {
             fam("short strings", short_strings_family(tier.pick(3, 4), &proto), &mut all);
@@ -1429,7 +1496,18 @@ pub fn run(prop: &'static str, tier: Tier) -> ! {
             fam("splices", splice_family(&small_seeds, tier.pick(60, 600), &proto), &mut all);
             fam("over-declared lists", overdeclared_lists_family(&proto), &mut all);
             fam("checksum field variants", crc_field_family(&seed_set, &proto), &mut all);
-            fam("primitives", c12_primitives(&proto, Tier::Quick), &mut all);
+            fam("primitives", c12_primitives(&proto, tier), &mut all);
+            // totality also on the valid-file and type-length-field families of C03 / C12 (a panic on
+            // one of those inputs is a C06 matter and is reported by this check only)
+            let entries = entry_space(false);
+            let files: Vec<RFile> = entries.into_iter().step_by(tier.pick(2, 1)).map(|e| vec![getlist(vec![e])]).collect();
+            fam("entry product", gen_family(&files, 1, &proto, "generated: list-entry product x valid encodings"), &mut all);
+            fam("byte-string fields x lengths", octet_field_sweep(&proto, tier), &mut all);
+            fam("1-byte TLFs", c12_tlf_family(1, &[1, 2, 3, 4, 5, 6], &proto, "all 1-byte type-length fields at six grammar sites"), &mut all);
+            fam("2-byte TLFs", c12_tlf_family(2, &[1, 2, 3, 4, 5, 6], &proto, "all 2-byte type-length fields at six grammar sites"), &mut all);
+            if tier == Tier::Thorough {
+                fam("3-byte TLFs", c12_tlf_family(3, &[2, 3, 4], &proto, "all 3-byte type-length fields"), &mut all);
+            }
             all.counts.require(&["type-length field replaced by one declaring an arbitrary length", "inputs the allocating parser accepts"]);
         }
         "C09" | "C13" => {
@@ -1446,6 +1524,7 @@ pub fn run(prop: &'static str, tier: Tier) -> ! {
             fam("over-declared lists", overdeclared_lists_family(&proto), &mut all);
             fam("checksum field variants", crc_field_family(&seed_set, &proto), &mut all);
             fam("primitives", c12_primitives(&proto, Tier::Quick), &mut all);
+            fam("byte-string fields x lengths", octet_field_sweep(&proto, Tier::Quick), &mut all);
             all.counts.require(&["checksum-repaired variants", "inputs the independent reader accepts", "inputs the independent reader rejects"]);
         }
         "C12" => {
@@ -1457,6 +1536,7 @@ pub fn run(prop: &'static str, tier: Tier) -> ! {
             fam("long TLFs", c12_long_tlfs(&proto), &mut all);
             fam("primitives", c12_primitives(&proto, tier), &mut all);
             fam("checksum field variants", crc_field_family(&seed_set, &proto), &mut all);
+            fam("byte-string fields x lengths", octet_field_sweep(&proto, tier), &mut all);
             all.counts.require(&["inputs the independent reader accepts", "inputs the independent reader rejects", "inputs the allocating parser accepts"]);
         }
         _ => unreachable!(),
